@@ -1259,6 +1259,14 @@ package flags
 // ("[remote.add]") be found again (C12) and entries reach their option (C13).
 //@ assumed func (g *Group) groupByName(name string) (r *Group)
 //@   pure
+// (body: the empty section name is the group itself, any other name is looked up among its groups)
+//@ body func (g *Group) groupByName(name string) (r *Group)
+//@   props C13 C12 C04
+//@   requires g != nil
+//@   ensures[C13,C12] len(name) == 0 ==> r == g
+//@   ensures[C13,C12] len(name) != 0 && r != nil ==> findMatch(g, r, strings.ToLower(name))
+//@   ensures[C13,C12] len(name) != 0 && r == nil ==> forall(J, 0, iterlen(Group.eachGroup, g), !findMatch(g, iterelem(Group.eachGroup, g, J, 0), strings.ToLower(name)))
+//@   assigns nothing
 //@ assumed func subRest(name string, sub *Command) (r string)
 //@   pure
 //@ axiom manual subRest_def: forall name string, sub *Command :: hasPrefix(name, sub.Name + ".") ==> subRest(name, sub) == name[len(sub.Name + "."):]
@@ -1973,6 +1981,15 @@ package flags
 
 //@ assumed func optionIniName(option *Option) (r string)
 //@   pure
+// (body: the key an option is written under is its recorded read name, else its ini-name tag, else its field name -
+// the three names the reader's optionByName answers to, in the reader's order of preference: C12)
+//@ body func optionIniName(option *Option) (r string)
+//@   props C12 C13 C04
+//@   requires option != nil
+//@   ensures[C12,C13] len(option.tag.Get("_read-ini-name")) != 0 ==> r == option.tag.Get("_read-ini-name")
+//@   ensures[C12,C13] len(option.tag.Get("_read-ini-name")) == 0 && len(option.tag.Get("ini-name")) != 0 ==> r == option.tag.Get("ini-name")
+//@   ensures[C12,C13] len(option.tag.Get("_read-ini-name")) == 0 && len(option.tag.Get("ini-name")) == 0 ==> r == option.field.Name
+//@   assigns nothing
 // The is-default test that decides what the INI writer omits or comments out: the value is compared itself
 // (reflect.DeepEqual), not by a rendering - different slices or maps can render alike.
 //@ assumed func reflect.DeepEqual(x interface{}, y interface{}) (r bool)
@@ -2110,6 +2127,22 @@ package flags
 //@   pure
 //@ assumed func (x *multiTag) Parse() (err error)
 //@   ensures err == tagErr(x.value)
+// The bodies of Parse and cached (their callers keep the assumed contracts): Parse stores exactly what the
+// verified scan produced - nothing for a malformed tag; cached never rescans (or replaces) a cache that is there,
+// so what Set stored stays.
+//@ body func (x *multiTag) Parse() (err error)
+//@   props C19 C04
+//@   requires x != nil
+//@   ensures[C19] err != nil ==> isTyped(err, ErrTag) && isnil(x.cache)
+//@   ensures[C19] err == nil ==> x.cache == tagAcc(x.value, make(map[string][]string))
+//@   assigns x.cache
+//@ body func (x *multiTag) cached() (m map[string][]string)
+//@   props C19 C04
+//@   requires x != nil
+//@   ensures[C19] !isnil(m) && m == x.cache
+//@   ensures[C19] !isnil(old(x.cache)) ==> m == old(x.cache)
+//@   assigns x.cache
+// (Set's body writes into a map it did not make - aliasing the engine does not model: Set stays assumed)
 //@ assumed func reflect.Type.NumField(t reflect.Type) (n int)
 //@   pure
 //@   ensures n >= 0
